@@ -776,8 +776,31 @@ fn sq(s: &str) -> String {
     format!("'{}'", s.replace('\'', "'\\''"))
 }
 
+/// Session 4 (coverage triage): words may hold command substitutions `$(echo 'TEXT')`.  The shell runs them
+/// for real (fork in the virtual system, `expand_words` collecting the exit status); the synchronous direct
+/// leg cannot, so it expands the equivalent parameter expansion `${cK}` with cK=TEXT instead — both deliver
+/// TEXT as soft-expansion characters (quoted or not as the context says).  If the real pipeline delivers
+/// anything else, the oracle says `shell-differs-from-direct`.
+fn desubst(prim: &Prim) -> Prim {
+    let mut p = prim.clone();
+    let mut k = 0;
+    for w in &mut p.words {
+        while let Some(i) = w.find("$(echo '") {
+            let rest = &w[i + 8..];
+            let Some(j) = rest.find("')") else { break };
+            let text = rest[..j].to_string();
+            k += 1;
+            let name = format!("c{k}");
+            *w = format!("{}${{{name}}}{}", &w[..i], &rest[j + 2..]);
+            p.assigns.push((name, text));
+        }
+    }
+    p
+}
+
 /// Everything that is computed inside the shell's environment before the script runs.
 fn prepare(env: &mut VEnv, state: &Rc<RefCell<SystemState>>, prim: &Prim, d: &mut Direct) {
+    let prim_direct = desubst(prim);
     if let Err(e) = build_tree(state, &prim.tree) {
         d.error = Some(format!("bad-tree:{e}"));
         return;
@@ -803,7 +826,7 @@ fn prepare(env: &mut VEnv, state: &Rc<RefCell<SystemState>>, prim: &Prim, d: &mu
             state.borrow_mut().home_dirs.insert(user.to_string(), PathBuf::from(v.as_str()));
         }
     }
-    for (n, v) in prim.assigns.iter().filter(|(n, _)| !n.starts_with('~')) {
+    for (n, v) in prim_direct.assigns.iter().filter(|(n, _)| !n.starts_with('~')) {
         let _ = env2.variables.get_or_new(n.clone(), Scope::Global).assign(v.clone(), None);
     }
     env2.options.set(ShellOption::Glob, if prim.glob_on { State::On } else { State::Off });
@@ -817,7 +840,7 @@ fn prepare(env: &mut VEnv, state: &Rc<RefCell<SystemState>>, prim: &Prim, d: &mu
             }
         }
     } else {
-        let words = match parse_words(prim) {
+        let words = match parse_words(&prim_direct) {
             Ok(w) => w,
             Err(e) => {
                 d.error = Some(format!("bad-word:{e}"));
@@ -1864,9 +1887,28 @@ fn gen_bracket_word(r: &mut Rng, base: usize) -> (String, Vec<(String, String)>)
     (text, assigns)
 }
 
+/// a word holding a command substitution whose output is a pattern / a name / several fields
+fn gen_subst_word(r: &mut Rng) -> (String, Vec<(String, String)>) {
+    const OUT: [&str; 16] = ["*", "?*", "[ab]*", "sub/*", ".*", "*/a", "\\*", "a b", "* .*", "a", "sub", "[", "*]", "", "-", "??"];
+    let out = *r.pick(&OUT);
+    let sub = format!("$(echo '{out}')");
+    let text = match r.below(8) {
+        0 | 1 | 2 => sub,
+        3 => format!("\"{sub}\""),
+        4 => format!("{sub}/*"),
+        5 => format!("sub/{sub}"),
+        6 => format!("{sub}*"),
+        _ => format!("*{sub}"),
+    };
+    (text, vec![])
+}
+
 fn gen_word(r: &mut Rng, tree: &[Entry], base: usize, first_word: bool) -> (String, Vec<(String, String)>) {
     if r.chance(1, 12) {
         return gen_split(r, base);
+    }
+    if r.chance(1, 18) {
+        return gen_subst_word(r);
     }
     if r.chance(1, 14) {
         return gen_bracket_word(r, base);
@@ -2047,6 +2089,8 @@ fn gen_prim(rw: &mut Rng, tree: &[Entry]) -> Prim {
             words.push(w);
             assigns.extend(a);
         }
+        // a command substitution needs a pipe: not together with the exhausted descriptor table
+        let fd_limit = fd_limit && !words.iter().any(|w| w.contains("$("));
         let prim = Prim { tree: tree.to_vec(), words, fields: None, assigns, fd_limit, glob_on, ctx };
         if parse_words(&prim).is_ok() {
             return prim;
